@@ -63,6 +63,13 @@ def make_case(ctx, rng, weights=None, rules=None, snap_ballots=False, render=Fal
             s.update(nc=5, names=s['names'][:5], tie=[c for c in (s['tie'] or []) if c <= 5] or None,
                      withdrawn=[c for c in s['withdrawn'] if c <= 5], undeclared=[c for c in s['undeclared'] if c <= 5])
         gen.make_valid(s, rng)
+    if rng.random() < 0.04 and opts['rule'] in configs.GREGORY:
+        # an electorate far beyond what a float holds exactly: every multiplier scaled by 10^12..10^20 (plus a small offset).
+        # Gregory rules only: their ballot values do not depend on the size of the electorate, whereas QPQ's 1/quotient and
+        # Meek's omega are absolute quantities that the fixed number of digits cannot carry for 10^20 ballots (a domain limit)
+        F = 10 ** rng.randint(12, 20)
+        s['lines'] = [(m * F + rng.randint(0, 3), r) for m, r in s['lines']]
+        s['family'] = s['family'] + '+huge'
     blt = gen.render(s)
     other = None
     if rng.random() < 0.08:
